@@ -778,6 +778,18 @@ pub fn iteration_cases() -> Vec<String> {
     "sort(for i in 1..60 return modulo(i * 7, 60), function(x, y) modulo(x + y, 3) = 0)",
     "sort(for i in 1..60 return modulo(i * 7, 60), function(x, y) null)",
     "sort(for i in 1..60 return if modulo(i, 3) = 0 then null else i, function(x, y) x < y)",
+    // precedes functions that contradict themselves, on lists of 20 .. 120 items (every residue pattern of a linear form)
+    "sort(for i in 1..24 return modulo(i * 7919, 101), function(a, b) modulo(a * 7 + b * 13, 3) = 0)",
+    "sort(for i in 1..50 return modulo(i * 7919, 101), function(a, b) modulo(a * 7 + b * 13, 3) = 0)",
+    "sort(for i in 1..120 return modulo(i * 7919, 101), function(a, b) modulo(a * 7 + b * 13, 3) = 0)",
+    "sort(for i in 1..24 return modulo(i * 7919, 101), function(a, b) modulo(a + 2 * b, 3) = 1)",
+    "sort(for i in 1..33 return modulo(i * 31, 17), function(a, b) modulo(a * b, 2) = 0)",
+    "sort(for i in 1..64 return modulo(i * 31, 17), function(a, b) a < b or modulo(a + b, 5) = 0)",
+    "sort(for i in 1..21 return i, function(a, b) modulo(a + b, 2) = 1)",
+    "sort(for i in 1..40 return modulo(i * 13, 7), function(a, b) a >= b)",
+    "sort(for i in 1..40 return [modulo(i * 13, 7), i], function(a, b) a[1] <= b[1])",
+    // a chain of entries each made of the one before, for every operator and built-in that reports its operands: what an
+    // error value carries along must not grow without bound
     // a chain of entries each made of the one before: what an error value carries along must not grow without bound
     "{a00: 1 / \"x\", a01: a00 / a00, a02: a01 / a01, a03: a02 / a02, a04: a03 / a03, a05: a04 / a04, a06: a05 / a05, a07: a06 / a06, a08: a07 / a07, a09: a08 / a08, a10: a09 / a09, a11: a10 / a10, a12: a11 / a11, a13: a12 / a12, a14: a13 / a13, a15: a14 / a14, a16: a15 / a15, a17: a16 / a16, a18: a17 / a17, a19: a18 / a18, a20: a19 / a19, a21: a20 / a20, a22: a21 / a21, a23: a22 / a22, a24: a23 / a23, a25: a24 / a24, a26: a25 / a25, a27: a26 / a26, a28: a27 / a27, a29: a28 / a28}.a29",
     // a value grown by applying an operator to the result of the step before, far beyond what a literal can denote
@@ -801,6 +813,25 @@ pub fn iteration_cases() -> Vec<String> {
     "{f: function(n) f(n + 1), r: f(1)}.r",
   ] {
     out.push(t.to_string());
+  }
+  // chains of 32 entries, each made of the entry before it, for every operator and built-in that answers a wrong operand with
+  // a null that reports its operands
+  for template in [
+    "after(_, _)", "before(_, _)", "coincides(_, _)", "meets(_, _)", "met by(_, _)", "overlaps(_, _)", "includes(_, _)", "during(_, _)", "starts(_, _)", "finishes(_, _)", "_ + _", "_ - _", "_ * _", "_ ** _", "_ < _", "_ >= _", "_ = _",
+    "_ != _", "_ and _", "_ or _", "_ between _ and _", "_ in [_.._]", "substring(_, _)", "contains(_, _)", "matches(_, _)", "replace(_, _, _)", "min(_, _)", "max(_, _)", "sum(_, _)", "mean(_, _)", "decimal(_, _)", "modulo(_, _)",
+    "number(_, _, _)", "date(_, _, _)", "time(_, _, _)", "date and time(_, _)", "duration(_)", "years and months duration(_, _)", "string length(_)", "abs(_)", "sqrt(_)", "-_", "not(_)", "get value(_, _)", "sublist(_, _)", "append(_, _)[1]",
+    "index of(_, _)", "list contains(_, _)", "_[_]", "_._", "if _ then _ else _", "_ instance of number", "is(_, _)",
+    // the same with the entry before as an item of a list or an entry of a context
+    "after([_], [_])", "coincides({k: _}, _)", "[_] + [_]", "[_] - [_]", "[_] * [_]", "[_] / [_]", "[_] ** [_]", "{k: _} - {k: [_]}", "[_] < [_]", "[_] = {k: _}", "[_] between [_] and [_]", "substring([_], [_])", "abs([_])",
+    "date([_], [_], [_])", "decimal([_], [_])", "sum([_], [_])", "-[_]", "not([_])", "[_] and [_]", "if [_] then 1 else 2", "[_] in [[_]..[_]]", "[_] instance of number",
+  ] {
+    let mut text = String::from("{a00: 1 / \"x\"");
+    for k in 1..32 {
+      let prev = format!("a{:02}", k - 1);
+      text.push_str(&format!(", a{:02}: {}", k, template.replace("._", &format!(".{}", prev)).replace('_', &prev)));
+    }
+    text.push_str("}.a31");
+    out.push(text);
   }
   out
 }
